@@ -59,11 +59,13 @@ def unmarshal(data_in: bytes) -> typing.Tuple[int, int, FrameTypes]:
 
     frame_type, channel_id, frame_size = frame_parts(data_in)
 
-    # Heartbeats are the only frames without a payload
+    # Heartbeats and empty content bodies are the only frames without a
+    # payload (marshal() emits the latter for ContentBody(b''))
     is_heartbeat = (frame_type == constants.FRAME_HEARTBEAT
                     and frame_size == 0)
+    is_empty_body = (frame_type == constants.FRAME_BODY and frame_size == 0)
 
-    if not frame_size and not is_heartbeat:
+    if not frame_size and not is_heartbeat and not is_empty_body:
         raise exceptions.UnmarshalingException('Unknown', 'No frame size')
 
     byte_count = constants.FRAME_HEADER_SIZE + frame_size + 1
